@@ -83,7 +83,16 @@ def validate(c, tag, doc, meta):
 def run_random(seed, steps, profile, n):
     wd = V.workdir(PID, "hist")
     out = os.path.join(wd, "random_%d.json" % n)
-    rc, o = V.ckbv("c13", ["random", "--seed", seed, "--steps", steps, "--profile", profile, "--probes", 40, "--out", out], timeout=1700)
+    args = ["random", "--seed", seed, "--steps", steps, "--profile", profile, "--probes", 40, "--out", out]
+    rc, o = V.ckbv("c13", args, timeout=1700)
+    if rc == 3 and "WATCHDOG" in o:
+        # a service of the node under test stopped responding (the harness' watchdog: no progress for 180 s).  A hang that
+        # REPEATS at the same stage of the same seeded history is data, not tool trouble
+        st1 = re.findall(r"WATCHDOG: no progress for \d+s at stage '([^']*)'", o)
+        rc, o = V.ckbv("c13", args, timeout=1700)
+        st2 = re.findall(r"WATCHDOG: no progress for \d+s at stage '([^']*)'", o)
+        if rc == 3 and st1 and st1 == st2:
+            return {"hang": {"seed": seed, "steps": steps, "profile": profile, "stage": st1[-1]}}
     if rc != 0 or not os.path.exists(out):
         V.log(o[-3000:])
         raise V.ToolError("c13 random failed rc=%d" % rc)
@@ -127,6 +136,12 @@ def run(tier):
         seeds = [(V.seed() * 1000 + i, steps, profiles[i % len(profiles)], i) for i in range(nh)]
         with cf.ThreadPoolExecutor(max_workers=6) as ex:
             docs = list(ex.map(lambda a: run_random(*a), seeds))
+        for d in [x for x in docs if "hang" in x]:
+            h = d["hang"]
+            c.violation("hang/%s" % re.sub(r"[^a-z]+", "-", h["stage"].lower()).strip("-"),
+                        "history seed %s profile %s: the node under test stopped responding (no progress for 180 s, twice, at stage '%s')" % (
+                            h["seed"], h["profile"], h["stage"]), {"kind": "hang", "args": h})
+        docs = [x for x in docs if "hang" not in x]
         judged = 0
         with cf.ThreadPoolExecutor(max_workers=8) as ex:
             results = list(ex.map(lambda x: validate(c, "random_%d" % x[0], x[1], {"source": "random", "args": x[1]["summary"]}), list(enumerate(docs))))
@@ -197,6 +212,13 @@ def replay(path, tier):
         res = V.tlc(PID, "MC_PoolReorg", p["cfg"], workers=8)
         if res["violated"]:
             c.violation("model/" + res["violated"], "model violation", p)
+        return 1 if c.violations else 0
+    if p["kind"] == "hang":
+        a = p["args"]
+        V.build_harness("c13")
+        d = run_random(a["seed"], a["steps"], a["profile"], 9999)
+        if "hang" in d:
+            c.violation("hang/replayed", "the node under test stops responding again at stage '%s'" % d["hang"]["stage"], p)
         return 1 if c.violations else 0
     validate(c, "replayed", {"universe": p["universe"], "genesis": p["genesis"], "events": p["events"]}, p.get("meta"))
     m = p.get("meta") or {}
